@@ -46,6 +46,7 @@ type ResharePlan struct {
 	NewT    int    `json:"new_t"`
 	Fail    string `json:"fail,omitempty"` // "", abort, expire, exec_partition
 	StopLeavers bool `json:"stop_leavers,omitempty"` // the operators of leaving nodes shut them down just before the transition
+	DownInExec  int  `json:"down_in_exec,omitempty"` // remaining member (position+1) that accepted and goes down before the execution starts (and stays down)
 }
 
 type DaemonScenario struct {
@@ -580,7 +581,14 @@ func (e *daemonEngine) setup() error {
 			return err
 		}
 		for _, id := range e.beaconIDs() {
-			p, err := seededPair(n.addr, e.chains[id].sch, H64(sc.Seed, "pair", i, id))
+			sch := e.chains[id].sch
+			if fp := sc.Follow; fp != nil && fp.Node == i && fp.KeyScheme != "" {
+				// a follower is no member: nothing says its own key pair is of the scheme of the chain it follows
+				if s2, err := crypto.SchemeFromName(fp.KeyScheme); err == nil {
+					sch = s2
+				}
+			}
+			p, err := seededPair(n.addr, sch, H64(sc.Seed, "pair", i, id))
 			if err != nil {
 				return err
 			}
